@@ -620,6 +620,29 @@ fn c07_open_r_create_or_trunc() {
 fn c07_open_r_create_or_append() {
     open_case(1, 5);
 }
+// Read-only-attribute target with the truncating / creating sub-operations cut
+// out (counting stubs): the refusal has to come before either is called.
+macro_rules! open_r_cut {
+    ($($name:ident => $m:expr;)*) => {$(
+        #[kani::proof]
+        #[kani::unwind(130)]
+        #[kani::stub(crate::fat::FatVolume::truncate_cluster_chain, crate::fat::vk_fatx::stub_cut_truncate)]
+        #[kani::stub(crate::fat::FatVolume::write_new_directory_entry, crate::fat::vk_fatx::stub_cut_new_entry)]
+        #[kani::stub(crate::fat::FatVolume::write_entry_to_disk, crate::fat::vk_fatx::stub_cut_write_entry)]
+        fn $name() {
+            open_case(1, $m);
+            let (t, n, w) = crate::fat::vk_fatx::cut_calls();
+            assert!(w == 0, "modes.readonly_attr: open of a read-only file for writing rewrote its directory entry");
+            assert!(t == 0, "modes.readonly_attr: open of a read-only file for writing reached the truncation");
+            assert!(n == 0, "modes.readonly_attr: open of an existing read-only file reached entry creation");
+        }
+    )*};
+}
+open_r_cut! {
+    c07_open_r_trunc_cut => 2;
+    c07_open_r_create_or_trunc_cut => 4;
+    c07_open_r_create_or_append_cut => 5;
+}
 #[kani::proof]
 #[kani::unwind(130)]
 fn c07_open_d_ro() {
